@@ -315,7 +315,40 @@ def run_list_rules(run):
     f = prog.func('geom3d:Plucker.append')
     check_mutator(run, f, f.params[1], lambda st: _is_super_method_call(st, {'append'}))
     check_extend(run, prog.func('smuserlist:SMUserList.extend'))
+    check_shared_element_list(run)
     check_pop(run, prog.func('smuserlist:SMUserList.pop'))
     check_who_defines(run)
     check_empty_alloc(run)
     check_empty_list_ctor(run, prog.func('smuserlist:SMUserList.arghandler'))
+
+
+def check_shared_element_list(run):
+    """Container freshness: the element list of an object is its own.  A method that binds `self.data` to the element list of
+    another object (`self.data = other.data`, also through a local) makes the two objects share one list: every later in-place
+    operation on one (append, clear, extend, item assignment) changes the other, which no Python list built by extend / copy /
+    slicing ever does.  A fresh list (list(..), a comprehension, a slice, .copy(), a concatenation) is accepted."""
+    from ..cfg import pure_locals, _subst_pure
+    prog = run.prog
+    n = 0
+    for f in prog.analysed_functions():
+        if f.cls is None or f.selfname is None or prog.UserList not in f.cls.mro or f.module.short.startswith('stdlib/'):
+            continue
+        params = [p for p in f.allparams if p != f.selfname]
+        if not params:
+            continue
+        env = None
+        for st in own_walk(f.node):
+            if not (isinstance(st, ast.Assign) and len(st.targets) == 1 and isinstance(st.targets[0], ast.Attribute) and st.targets[0].attr == 'data'
+                    and isinstance(st.targets[0].value, ast.Name) and st.targets[0].value.id == f.selfname):
+                continue
+            if env is None:
+                env = pure_locals(f.node)
+            v = _subst_pure(st.value, env)
+            n += 1
+            if isinstance(v, ast.Attribute) and v.attr == 'data' and isinstance(v.value, ast.Name) and v.value.id in params:
+                run.violation(RULE, f.key, 'element list shared with ' + v.value.id, 'self.data is bound to %s.data itself, not to a copy: the two objects '
+                              'share one element list, so a later append / clear / extend / item assignment on either changes both (a Python list '
+                              'extended from another never does)' % v.value.id, f=f, node=st)
+            else:
+                run.holds(RULE, f.key, 'element list ' + src(st.value, 40), 'not the element list of another object', f=f, node=st, nontrivial=False)
+    return n
